@@ -16,8 +16,8 @@ R6.7  no panic in the builder surface.
 """
 import sympy as sp
 
-from bsa import cfg, logic, paths, sym
-from bsa.hir import Missing, callee, peel, place, pp, walk, walk_with_parents
+from bsa import vecint, cfg, logic, paths, sym
+from bsa.hir import Missing, callee, pat_binds, peel, place, pp, walk, walk_with_parents
 
 LEVEL = "other"
 
@@ -156,79 +156,134 @@ def is_path(n, suffix):
     return n.get("k") == "Path" and ((n.get("ctor_of") or n.get("def") or "").endswith(suffix))
 
 
+class _SoftPaths(paths.PathInterp):
+    """Path exploration of a constructor-like body: calls outside the domain (allocation of the solver's buffers, nalgebra constructors) evaluate
+    their operands — so that a `?` inside them still forks — and yield an opaque value."""
+    def _soft(self, n, sup):
+        try:
+            return sup(self, n)
+        except sym.Unsupported as u:
+            if u.node is not n and getattr(u, "node", None) is not None and u.node is not n:
+                # the failure is inside an operand: that is outside the domain for real
+                inner = u.node
+                if any(x is inner for a in ([n.get("recv")] if n.get("recv") else []) + list(n.get("args", [])) for x in walk(a)):
+                    raise
+            for a in ([n["recv"]] if n.get("recv") else []) + list(n.get("args", [])):
+                if a.get("k") != "Closure":
+                    self.ev(a)
+            return sym.Opaque("call:" + (n.get("def") or callee(n) or n.get("name") or "?"), n)
+
+    def ev_Call(self, n):
+        return self._soft(n, paths.PathInterp.ev_Call)
+
+    def ev_MCall(self, n):
+        return self._soft(n, paths.PathInterp.ev_MCall)
+
+
 def check_solve(F, run, bname):
+    """R6.3 on the paths of solve() (any control-flow shape: `ok_or(..)?`, let-else, match): the iterator is only handed out on a path that tested
+    every Option field of the builder as Some; a path on which a field is None returns Err(MissingParameters); there is no other error exit."""
     b = builder_fn(F, bname, "solve")
     run.analysed(b)
+    dp = bname + "::solve"
     struct = BUILDERS[bname][0]
     adt = F.adts.get(struct)
     if adt is None:
         raise Missing("struct %s" % struct)
     optf = [f["name"] for f in adt["variants"][0]["fields"] if f["ty"].startswith("std::option::Option<")]
-    run.floor("R6.3", bname + "::solve", "Option fields of the builder", len(optf), 5 if bname == "Euler" else 7, F.loc(b))
-    consumed = set()
-    n_try = 0
-    for n, parents in walk_with_parents(b["body"]):
-        if n.get("k") != "Try":
-            continue
-        n_try += 1
-        e = peel(n["e"])
-        ok = False
-        if e.get("k") == "MCall" and e["name"] == "ok_or" and e["args"]:
-            if is_path(e["args"][0], "IVPError::MissingParameters"):
-                r = peel(e["recv"])
-                if r.get("k") == "MCall" and r["name"] == "take":
-                    r = peel(r["recv"])
-                pl = place(r)
-                if pl and pl.startswith("self."):
-                    consumed.add(pl[5:])
-                    ok = True
-            elif is_path(e["args"][0], "IVPError::FromPrimitiveFailure"):
-                ok = True
-        run.check(ok, "R6.3", bname + "::solve", "try:" + pp(n)[:60], F.loc(b, n),
-                  "solve() has an error exit that is neither MissingParameters on a builder field nor FromPrimitiveFailure: %s" % pp(n)[:120])
+    run.floor("R6.3", dp, "Option fields of the builder", len(optf), 5 if bname == "Euler" else 7, F.loc(b))
+    try:
+        ps = paths.explore(F, b, interp_cls=_SoftPaths, limit=256)
+    except sym.Unsupported as u:
+        run.broken("R6.3", dp, "paths", F.loc(b, u.node if isinstance(getattr(u, "node", None), dict) else None), "solve() outside the path domain: %s" % u)
+        return
+    somes = {f: sp.Symbol("some(self.%s)" % f) for f in optf}
+    n_ok = 0
+    for p in ps:
+        pos = {l for l in p.pc if isinstance(l, sp.Symbol)}
+        neg = {l.args[0] for l in p.pc if isinstance(l, sp.Not) and isinstance(l.args[0], sp.Symbol)}
+        res = variant_name(p.result)
+        inst = "path[%s]" % ",".join(str(x) for x in p.pc)
+        missing = sorted(f for f in optf if somes[f] in neg)
+        if res == "Ok":
+            n_ok += 1
+            untested = sorted(f for f in optf if somes[f] not in pos)
+            for f in untested:
+                run.fail("R6.3", dp, "field:" + f, F.loc(b),
+                         "solve() can return Ok on a path that never established that the builder field `%s` is set: [%s]" % (f, p.cond()))
+            if not untested:
+                run.ok("R6.3", inst, "%s: Ok only after all of %s are Some" % (dp, optf))
+            it = p.result.args[0] if p.result.args else None
+            fin = it.get("finished") if isinstance(it, dict) and (it.get("__struct__") or "").endswith("IVPIterator") else None
+            run.check(fin is sp.false or fin is False, "R6.6", dp, "starts-unfinished", F.loc(b),
+                      "solve() does not end in Ok(IVPIterator { finished: false, .. }) (finished = %s)" % (fin,))
+        elif res == "Err:MissingParameters":
+            run.check(bool(missing), "R6.3", dp, "spurious-missing:" + inst, F.loc(b),
+                      "solve() returns Err(MissingParameters) on a path where no builder field was found unset: [%s]" % p.cond(),
+                      sample="%s: [%s] -> %s" % (dp, p.cond(), res))
+        elif res == "Err:FromPrimitiveFailure":
+            run.check(not missing, "R6.3", dp, "missing-as:" + inst, F.loc(b),
+                      "an unset builder field (%s) is reported as FromPrimitiveFailure" % ", ".join(missing))
+        else:
+            run.fail("R6.3", dp, "exit:" + inst, F.loc(b),
+                     "solve() has an exit that is neither Ok(iterator), MissingParameters on an unset field nor FromPrimitiveFailure: %s on [%s]" % (res, p.cond()))
     for f in optf:
-        run.check(f in consumed, "R6.3", bname + "::solve", "field:" + f, F.loc(b),
-                  "Option field `%s` of the builder is not checked with ok_or(IVPError::MissingParameters)? in solve()" % f,
-                  sample="%s.%s -> ok_or(MissingParameters)?" % (bname, f))
-    for n in walk(b["body"]):
-        if n.get("k") == "Ret":
-            run.fail("R6.3", bname + "::solve", "early-return", F.loc(b, n), "solve() has an explicit return: %s" % pp(n)[:100])
-    # tail is Ok(IVPIterator{.. finished: false ..})
-    tail = peel(b["body"].get("expr") or {})
-    good = tail.get("k") == "Call" and (callee(tail) or "").endswith("Ok") and peel(tail["args"][0]).get("k") == "Struct" \
-        and peel(tail["args"][0])["def"].endswith("IVPIterator")
-    if good:
-        st = peel(tail["args"][0])
-        fin = [f for f in st["fields"] if f["name"] == "finished"]
-        good = len(fin) == 1 and peel(fin[0]["e"]).get("v") == "false"
-    run.check(good, "R6.6", bname + "::solve", "starts-unfinished", F.loc(b),
-              "solve() does not end in Ok(IVPIterator { finished: false, .. })")
+        hit = [p for p in ps if any(isinstance(l, sp.Not) and l.args[0] == somes[f] for l in p.pc)]
+        run.check(bool(hit) and all(variant_name(p.result) == "Err:MissingParameters" for p in hit), "R6.3", dp, "field:" + f, F.loc(b),
+                  "Option field `%s` of the builder unset does not lead to Err(IVPError::MissingParameters) in solve() (%s)"
+                  % (f, sorted({variant_name(p.result) for p in hit}) or "never tested"), sample="%s.%s unset -> Err(MissingParameters)" % (bname, f))
+    run.check(n_ok >= 1, "R6.3", dp, "ok-path", F.loc(b), "solve() has no path returning Ok")
 
 
 def check_new(F, run, bname):
-    for method, dimfn, nargs in (("new", "Dimension::dim", 0), ("new_dyn", "Dimension::dim_dyn", 1)):
+    """R6.4 on the paths of new()/new_dyn() (helpers are evaluated in place): the builder's dimension is the value of Dimension::dim() resp.
+    Dimension::dim_dyn(size), its error is propagated, and every init_* field starts as None."""
+    for method, dimfn, nargs in (("new", "dim", 0), ("new_dyn", "dim_dyn", 1)):
         b = builder_fn(F, bname, method)
         run.analysed(b)
-        calls = []
-        for n, parents in walk_with_parents(b["body"]):
-            if n.get("k") == "Call" and (callee(n) or "").startswith("Dimension::"):
-                calls.append((n, parents))
-        good = len(calls) == 1 and callee(calls[0][0]) == dimfn and calls[0][1] and calls[0][1][-1].get("k") == "Try"
-        if good and nargs == 1:
-            arg = peel(calls[0][0]["args"][0])
-            good = arg.get("k") == "Local" and arg["name"] == b["params"][0].get("name")
-        run.check(good, "R6.4", "%s::%s" % (bname, method), "dimension-call", F.loc(b),
-                  "%s() must obtain its dimension from %s(%s)? and propagate the error" % (method, dimfn, "size" if nargs else ""),
-                  sample="%s::%s uses %s?" % (bname, method, dimfn))
-        # all Option fields start as None
-        st = [n for n in walk(b["body"]) if n.get("k") == "Struct"]
-        if len(st) == 1:
-            for f in st[0]["fields"]:
-                if f["name"].startswith("init_"):
-                    run.check(is_path(f["e"], "None"), "R6.4", "%s::%s" % (bname, method), "starts-empty:" + f["name"], F.loc(b),
-                              "%s() pre-sets %s" % (method, f["name"]))
-        else:
-            run.broken("R6.4", "%s::%s" % (bname, method), "struct-literal", F.loc(b), "no single struct literal")
+        dp = "%s::%s" % (bname, method)
+        seen = []
+
+        def setup(it):
+            def hook(last):
+                def h(interp, n, args):
+                    if not (callee(n) or "").startswith("Dimension::"):
+                        raise sym.Unsupported(n, "call of %s" % callee(n))
+                    seen.append((last, tuple(args)))
+                    return paths.ResVal(sp.Symbol("ok(%s)" % last), sp.Function("D_" + last)(*[a for a in args if isinstance(a, sp.Basic)]), sp.Symbol("err(%s)" % last))
+                return h
+            it.call_hooks["dim"] = hook("dim")
+            it.call_hooks["dim_dyn"] = hook("dim_dyn")
+        try:
+            ps = paths.explore(F, b, setup=setup)
+        except sym.Unsupported as u:
+            run.broken("R6.4", dp, "paths", F.loc(b, u.node if isinstance(getattr(u, "node", None), dict) else None), "%s() outside the path domain: %s" % (method, u))
+            continue
+        size = [sp.Symbol(nm, real=True) for prm in b["params"] for (_, nm) in pat_binds(prm)]
+        want_dim = sp.Function("D_" + dimfn)(*size[:nargs])
+        okc = sp.Symbol("ok(%s)" % dimfn)
+        good = len(ps) == 2
+        n_ok = 0
+        for p in ps:
+            res = variant_name(p.result)
+            if okc in p.pc:
+                st = p.result.args[0] if res == "Ok" and p.result.args else None
+                g = isinstance(st, dict) and st.get("dim") == want_dim
+                good = good and g
+                n_ok += 1
+                if isinstance(st, dict):
+                    for f, v in st.items():
+                        if f.startswith("init_"):
+                            none = isinstance(v, paths.OptVal) and v.some is sp.false or isinstance(v, sym.Variant) and v.name == "None"
+                            run.check(none, "R6.4", dp, "starts-empty:" + f, F.loc(b), "%s() pre-sets %s" % (method, f))
+            elif sp.Not(okc) in p.pc:
+                good = good and res.startswith("Err") and p.result.args and p.result.args[0] == sp.Symbol("err(%s)" % dimfn)
+            else:
+                good = False
+        run.check(good and n_ok == 1, "R6.4", dp, "dimension-call", F.loc(b),
+                  "%s() must obtain its dimension from Dimension::%s(%s)? and propagate the error (paths: %s)"
+                  % (method, dimfn, "size" if nargs else "", [(str(p.cond()), str(p.result)[:80]) for p in ps]),
+                  sample="%s uses Dimension::%s?" % (dp, dimfn))
 
 
 def check_dimension(F, run):
@@ -424,120 +479,110 @@ def expr_shape(e):
     return (k,)
 
 
+class _IterV(vecint.VInterp):
+    """`next` of the solution iterator with `self.solver.step()` scripted: each call returns the next element of `script`."""
+    def __init__(self, *a, **k):
+        vecint.VInterp.__init__(self, *a, **k)
+        self.unroll_limit = 16
+
+
+def _run_next(F, b, finished, script):
+    """-> (returned value, finished afterwards, number of step() calls) for one scripted scenario (None result = did not return)."""
+    it = vecint.VInterp(F, b)
+    it.WHILE_LIMIT = 12
+    calls = [0]
+
+    def step_hook(interp, n):
+        if not (n.get("def") or "").endswith("IVPStepper::step"):
+            return NotImplemented
+        k = calls[0]
+        calls[0] += 1
+        if k >= len(script):
+            raise vecint.Budget(n, "step() called more often than the scenario provides")
+        return script[k]
+    it.method_hooks = {"step": step_hook}
+    it.if_hook = lambda i, n, c: None
+    me = {"__struct__": "ivp::IVPIterator", "finished": sp.true if finished else sp.false, "solver": {"__struct__": "solver"}}
+    it.bind(b["params"][0], me, b)
+    try:
+        v = it.ev(b["body"])
+    except sym.Return as r:
+        v = r.value
+    return v, me.get("finished"), calls[0]
+
+
 def check_iterator(F, run):
+    """R6.6 — the solution iterator, decided on scripted scenarios of `self.solver.step()` (abstract execution of `next`, any control-flow shape):
+    a point is passed on as Some(Ok(point)); Done ends the iteration with None; Redo calls step() again and nothing else; a Failure is yielded
+    once as Some(Err(e)) and fuses the iterator (finished = true, afterwards None without calling step()); collect_vec collects into a Result."""
     b = [x for x in F.bodies if x["name"] == "next" and (x.get("impl_self") or "").startswith("ivp::IVPIterator<")]
     if len(b) != 1:
         raise Missing("IVPIterator::next")
     b = b[0]
     run.analysed(b)
     dp = "IVPIterator::next"
-    steps = [n for n in walk(b["body"]) if n.get("k") == "MCall" and n["name"] == "step" and (n.get("def") or "").endswith("IVPStepper::step")]
-    if not run.check(len(steps) == 1, "R6.6", dp, "one-step-call", F.loc(b), "expected exactly one call of IVPStepper::step, found %d" % len(steps)):
-        return
-    step = steps[0]
-    run.check(place(step["recv"]) == "self.solver", "R6.6", dp, "steps-own-solver", F.loc(b, step), "step() is not called on self.solver")
-    g = cfg.guards_of(b["body"], step)
-    fused = any(l[0] == "lit" and place(l[1]) == "self.finished" and l[2] is False for l in cfg.lits_of(g)) and g[0] in ("lit", "and")
-    run.check(fused, "R6.6", dp, "finished-guard", F.loc(b, step),
-              "the step() call is not dominated by `if self.finished { return None }`: the iterator is not fused after a failure",
-              sample="step() guarded by !self.finished")
-    # the early exit returns None
-    for n in walk(b["body"]):
-        if n.get("k") == "If" and place(n["c"]) == "self.finished":
-            rets = [x for x in walk(n["t"]) if x.get("k") == "Ret"]
-            run.check(len(rets) == 1 and "e" in rets[0] and expr_shape(rets[0]["e"]) == ("None",), "R6.6", dp, "finished-returns-none", F.loc(b, n),
-                      "`if self.finished` does not return None")
-    pm = cfg.parent_map(b["body"])
-    m = pm.get(id(step))
-    loops = [a for a in cfg.ancestors(pm, step) if a.get("k") == "Loop"]
-    if not (m is not None and m.get("k") == "Match" and m["e"] is step and len(loops) == 1):
-        run.broken("R6.6", dp, "match", F.loc(b, step), "step() result is not matched directly inside one loop")
-        return
-    loop = loops[0]
-    # the loop's value is the function's value
-    tail = b["body"].get("expr")
-    run.check(tail is loop, "R6.6", dp, "loop-is-result", F.loc(b), "the loop's break value is not what next() returns")
-    want = {
-        ("Ok", ("$v",)): ("Break", ("Some", ("Ok", ("$v",)))),
-        ("Err", ("Done",)): ("Break", ("None",)),
-        ("Err", ("Redo",)): ("Continue",),
-        ("Err", ("Failure", ("$v",))): ("Break", ("Some", ("Err", ("$v",)))),
-    }
-    seen = {}
-    for a in m["arms"]:
-        sh = pat_shape(a["pat"])
-        # rename binder to $v
-        var = None
+    V = sym.Variant
+    pt, er = sp.Symbol("POINT"), sp.Symbol("ERR")
+    ok, done, redo, fail = V("Ok", [pt]), V("Err", [V("Done", [])]), V("Err", [V("Redo", [])]), V("Err", [V("Failure", [er])])
+    some_ok, some_err, none = V("Some", [V("Ok", [pt])]), V("Some", [V("Err", [er])]), V("None", [])
 
-        def ren(t):
-            nonlocal var
-            if isinstance(t, tuple):
-                return tuple(ren(x) for x in t)
-            if isinstance(t, str) and t.startswith("$"):
-                var = t
-                return "$v"
-            return t
-        shn = ren(sh)
-        body = peel(a["body"])
-        stmts = []
-        if body.get("k") == "Block":
-            stmts = body["stmts"]
-            body = peel(body["expr"]) if body.get("expr") is not None else (peel(stmts[-1]["e"]) if stmts else body)
-            if stmts and body is peel(stmts[-1].get("e", {})):
-                stmts = stmts[:-1]
-        if body.get("k") == "Break":
-            act = ("Break", tuple(x if x != var else "$v" for x in [None]) and None)
-            val = expr_shape(body["e"]) if "e" in body else None
-
-            def ren2(t):
-                if isinstance(t, tuple):
-                    return tuple(ren2(x) for x in t)
-                return "$v" if t == var else t
-            act = ("Break", ren2(val)) if val is not None else ("Break",)
-            tgt_ok = body.get("target") == loop["id"]
-        elif body.get("k") == "Continue":
-            act = ("Continue",)
-            tgt_ok = body.get("target") == loop["id"]
-        else:
-            act = (body.get("k"),)
-            tgt_ok = False
-        if "e" in a.get("guard", {}) or "guard" in a:
-            act = ("guarded",) + act
-        seen[shn] = (act, stmts, tgt_ok, a)
-    for pat, act in want.items():
-        got = seen.get(pat)
-        run.check(got is not None and got[0] == act and got[2], "R6.6", dp, "arm:" + str(pat), F.loc(b, m),
-                  "arm %s must be `%s`, found %s" % (pat, act, got[0] if got else "no such arm"),
-                  sample="%s => %s" % (pat, act))
-    run.check(set(seen) == set(want), "R6.6", dp, "exhaustive-arms", F.loc(b, m),
-              "match on step() has arms %s, expected exactly %s" % (sorted(map(str, seen)), sorted(map(str, want))))
-    # Failure arm sets finished = true before yielding the error; no other arm has side effects
-    for pat, (act, stmts, _t, a) in seen.items():
-        if pat == ("Err", ("Failure", ("$v",))):
-            good = len(stmts) == 1 and peel(stmts[0].get("e", {})).get("k") == "Assign" and place(peel(stmts[0]["e"])["l"]) == "self.finished" \
-                and peel(peel(stmts[0]["e"])["r"]).get("v") == "true"
-            run.check(good, "R6.6", dp, "failure-sets-finished", F.loc(b, a["body"]),
-                      "the Failure arm does not set self.finished = true before yielding the error: a second Err or further points could follow")
-        else:
-            run.check(not stmts, "R6.6", dp, "arm-pure:" + str(pat), F.loc(b, a["body"]), "arm %s has extra statements" % (pat,))
-    # `finished` is written nowhere else
+    def same(a, b_):
+        if isinstance(a, sym.Variant) and isinstance(b_, sym.Variant):
+            return a.name == b_.name and len(a.args) == len(b_.args) and all(same(x, y) for x, y in zip(a.args, b_.args))
+        return a == b_
+    scen = [("fused", True, [], none, True, 0, "once finished, next() returns None without stepping"),
+            ("point", False, [ok], some_ok, False, 1, "a point returned by step() is yielded as Some(Ok(point))"),
+            ("done", False, [done], none, None, 1, "Done ends the iteration with None"),
+            ("failure", False, [fail], some_err, True, 1, "a Failure is yielded as Some(Err(e)) and sets finished"),
+            ("redo-then-point", False, [redo, redo, ok], some_ok, False, 3, "Redo makes next() call step() again until it gets a point"),
+            ("redo-then-failure", False, [redo, fail], some_err, True, 2, "Redo followed by a Failure yields the error and fuses"),
+            ("redo-then-done", False, [redo, done], none, None, 2, "Redo followed by Done ends the iteration")]
+    for name, fin, script, want, want_fin, want_calls, what in scen:
+        try:
+            v, fin2, ncalls = _run_next(F, b, fin, script)
+        except vecint.Budget as e:
+            run.fail("R6.6", dp, "scenario:" + name, F.loc(b), "%s: %s" % (what, e))
+            continue
+        except (sym.Unsupported, vecint.IndexPanic) as e:
+            run.broken("R6.6", dp, "scenario:" + name, F.loc(b, e.node if isinstance(getattr(e, "node", None), dict) else None), str(e))
+            continue
+        good = same(v, want) and ncalls == want_calls and (want_fin is None or (fin2 is sp.true) == want_fin)
+        run.check(good, "R6.6", dp, "scenario:" + name, F.loc(b),
+                  "%s — with step() returning %s, next() returns %r after %d step() call(s) and leaves finished = %s"
+                  % (what, [str(x) for x in script], v, ncalls, fin2), sample="%s: %s" % (name, what))
+    # `finished` is written only by the iterator itself
     writes = []
     for body in F.bodies:
         for n in walk(body["body"]):
             if n.get("k") in ("Assign", "AssignOp") and (place(n["l"]) or "").endswith(".finished"):
                 writes.append((body, n))
-    run.check(len(writes) == 1 and writes[0][0] is b, "R6.6", dp, "finished-single-writer", F.loc(b),
-              "`finished` is assigned at %d places (expected only the Failure arm)" % len(writes))
-    # collect_vec
+    run.check(all(w[0] is b for w in writes) and len(writes) >= 1, "R6.6", dp, "finished-single-writer", F.loc(b),
+              "`finished` is assigned outside IVPIterator::next (%d assignment(s) in all)" % len(writes))
+    # collect_vec: the whole path or the first error
     cv = [x for x in F.bodies if x["name"] == "collect_vec" and (x.get("impl_self") or "").startswith("ivp::IVPIterator<")]
     if len(cv) == 1:
         run.analysed(cv[0])
-        t = peel(cv[0]["body"])
-        if t.get("k") == "Block" and t.get("expr") is not None:
-            t = peel(t["expr"])
-        good = t.get("k") == "MCall" and t["name"] == "collect" and is_local_self(t["recv"]) and "Result<" in (t.get("ty") or "")
+        good = False
+        why = ""
+        try:
+            for items, want in (([V("Ok", [sp.Symbol("P1")]), V("Ok", [sp.Symbol("P2")])], ("Ok", 2)), ([V("Ok", [sp.Symbol("P1")]), V("Err", [er]), V("Ok", [sp.Symbol("P2")])], ("Err", None))):
+                it = vecint.VInterp(F, cv[0])
+                it.bind(cv[0]["params"][0], vecint.LazyIter(list(items)), cv[0])
+                try:
+                    v = it.ev(cv[0]["body"])
+                except sym.Return as r:
+                    v = r.value
+                if want[0] == "Ok":
+                    good = isinstance(v, sym.Variant) and v.name == "Ok" and isinstance(v.args[0], list) and len(v.args[0]) == 2
+                else:
+                    good = good and isinstance(v, sym.Variant) and v.name == "Err" and v.args and v.args[0] == er
+                why = repr(v)
+                if not good:
+                    break
+        except (sym.Unsupported, vecint.IndexPanic) as e:
+            good, why = False, str(e)
         run.check(good, "R6.6", "IVPIterator::collect_vec", "collect-result", F.loc(cv[0]),
-                  "collect_vec is not self.collect::<Result<Vec<_>, _>>() (type: %s)" % t.get("ty"))
+                  "collect_vec does not return Ok(all points) / the first error (%s)" % why[:120])
     else:
         run.broken("R6.6", "IVPIterator::collect_vec", "anchor", "src/ivp.rs", "collect_vec not found")
 
